@@ -3,7 +3,7 @@
    few worked schedules. *)
 From Coq Require Import List Arith NArith Bool.
 Import ListNotations.
-From XV Require Import lib.Lts C06.Model C06.ModelExt C06.Proofs C06.ProofsRx C06.ProofsMuc C06.ProofsIbb.
+From XV Require Import lib.Lts C06.Model C06.ModelExt C06.ModelLife C06.Proofs C06.ProofsRx C06.ProofsMuc C06.ProofsIbb C06.ProofsLife.
 
 Definition msg : name := mkname 0 2.
 
@@ -175,4 +175,66 @@ Proof. eexists. split; [vm_compute; reflexivity|]. repeat split. Qed.
 Example ex_ibb_case_ok :
   ibbf_case_ok (mkibbfcase [FRead 4; FData 3; FCheck; FNotify; FWait] [] 3 3) = true /\
   ibbf_case_ok (mkibbfcase [FRead 4; FData 3; FCheck; FNotify; FWait] [] 2 3) = false.
+Proof. split; vm_compute; reflexivity. Qed.
+
+(* ---- the life of a response ---- *)
+
+(* IterIQ, reply ill-formed while it is being parsed: the failing Token closes
+   through the guard, the deferred Close does nothing more *)
+Example ex_life_iter_parse_error :
+  exists s, run (rl_step (cfg_iter TCGuarded false)) rl_init (iter_parse_prog [RTokOk; RTokErr] true) = Some s /\
+    rl_panic s = false /\ rl_released s = 1 /\ rl_once s = true.
+Proof. eexists. split; [vm_compute; reflexivity|]. repeat split. Qed.
+
+(* the caller iterates, hits the error, reads past it and closes twice *)
+Example ex_life_iter_caller :
+  exists s, run (rl_step (cfg_iter TCGuarded false)) rl_init [RTokOk; RTokOk; RTokErr; RTokErr; RClose; RClose] = Some s /\
+    rl_panic s = false /\ rl_released s = 1.
+Proof. eexists. split; [vm_compute; reflexivity|]. split; reflexivity. Qed.
+
+(* hypothesis of C06_unmarshal_closes_once: reads only, some failing *)
+Example ex_life_unmarshal :
+  forallb (fun l => negb (is_close l)) [RTokOk; RTokErr] = true /\
+  exists s, run (rl_step (cfg_raw false)) rl_init (unmarshal_prog [RTokOk; RTokErr]) = Some s /\ rl_released s = 1.
+Proof. split; [reflexivity|]. eexists. split; [vm_compute; reflexivity|reflexivity]. Qed.
+
+(* hypothesis of C06_raw_response_partial / _one_close *)
+Example ex_life_raw_one_close : count_close [RTokOk; RTokErr; RTokErr; RClose] = 1.
+Proof. reflexivity. Qed.
+
+(* no token is read from a released response *)
+Example ex_life_no_read_after_close :
+  exists s, run (rl_step (cfg_raw false)) rl_init [RClose] = Some s /\ rl_step (cfg_raw false) s RTokOk = None.
+Proof. eexists. split; [vm_compute; reflexivity|reflexivity]. Qed.
+
+Example ex_life_case_ok :
+  rl_case_ok (mkrlcase (cfg_iter TCGuarded false) [RTokErr; RClose] false 1) = true /\
+  rl_case_ok (mkrlcase (cfg_iter TCDirect false) [RTokErr; RClose] false 1) = false /\
+  rl_case_ok (mkrlcase (cfg_raw false) [RTokOk; RClose; RClose] true 1) = true /\
+  rl_case_ok (mkrlcase (cfg_raw true) [RTokOk; RClose; RClose] false 1) = true.
+Proof. repeat split; vm_compute; reflexivity. Qed.
+
+(* ---- ibb writer vs. the peer's close ---- *)
+
+(* hypotheses of C06_ibb_overtaken_writer_is_aborted / C06_ibb_close_completes *)
+Example ex_iw_overtake :
+  exists s, run (iw_step false) iw_init [WStart; WSend; VCloseArrive] = Some s /\
+    iw_v s = VClose /\ writer_holds s = true /\ iw_broken s = false.
+Proof. eexists. split; [vm_compute; reflexivity|]. repeat split. Qed.
+
+(* close on an idle stream goes through the flush; a later write fails at once *)
+Example ex_iw_idle_close :
+  exists s, run (iw_step false) iw_init [VCloseArrive; VTry; VFlushDone; WStart] = Some s /\
+    iw_closed s = true /\ iw_w s = WRet false /\ iw_v s = VIdle.
+Proof. eexists. split; [vm_compute; reflexivity|]. repeat split. Qed.
+
+(* hypothesis of C06_ibb_close_ends_serve_only_after_failed_packet: the state exists *)
+Example ex_iw_ended :
+  exists s, run (iw_step false) iw_init [WStart; WSend; WAck false; VCloseArrive; VTry; VFlushDone] = Some s /\
+    iw_v s = VEnded /\ iw_broken s = true /\ iw_closed s = false.
+Proof. eexists. split; [vm_compute; reflexivity|]. repeat split. Qed.
+
+Example ex_iw_case_ok :
+  iw_case_ok (mkiwcase (overtake_trace ++ [WAck true]) 3 0 true) = true /\
+  iw_case_ok (mkiwcase overtake_trace 2 3 false) = false.
 Proof. split; vm_compute; reflexivity. Qed.
